@@ -464,6 +464,16 @@ func (g *Graph) ReachableFrom(from, to Point, cut cutSet, stop func(ast.Node) bo
 // LoopHasEarlyExit reports whether the body of loop statement s contains a
 // break/goto/return that leaves the loop (not crossing function literals).
 func LoopHasEarlyExit(s ast.Stmt) (bool, ast.Node) {
+	all := LoopEarlyExits(s)
+	if len(all) == 0 {
+		return false, nil
+	}
+	return true, all[0]
+}
+
+// LoopEarlyExits lists every statement in the body of loop s that leaves the loop (break/goto/return,
+// labelled continue of an outer loop), not crossing function literals.
+func LoopEarlyExits(s ast.Stmt) []ast.Node {
 	var body *ast.BlockStmt
 	switch l := s.(type) {
 	case *ast.RangeStmt:
@@ -471,7 +481,7 @@ func LoopHasEarlyExit(s ast.Stmt) (bool, ast.Node) {
 	case *ast.ForStmt:
 		body = l.Body
 	default:
-		return false, nil
+		return nil
 	}
 	// labels of statements inside the body: a labelled break/continue/goto to one of them stays inside the loop
 	inner := map[string]bool{}
@@ -484,10 +494,15 @@ func LoopHasEarlyExit(s ast.Stmt) (bool, ast.Node) {
 		}
 		return true
 	})
+	var all []ast.Node
 	var found ast.Node
 	var walk func(n ast.Node, depth int, inSwitchOrSelect int)
 	walk = func(n ast.Node, depth int, brk int) {
-		if n == nil || found != nil {
+		if found != nil {
+			all = append(all, found)
+			found = nil
+		}
+		if n == nil {
 			return
 		}
 		switch x := n.(type) {
@@ -538,7 +553,10 @@ func LoopHasEarlyExit(s ast.Stmt) (bool, ast.Node) {
 		children(n, func(c ast.Node) { walk(c, depth, brk) })
 	}
 	walk(body, 0, 0)
-	return found != nil, found
+	if found != nil {
+		all = append(all, found)
+	}
+	return all
 }
 
 func walkList(l []ast.Stmt, f func(ast.Node)) {
